@@ -1,2 +1,3 @@
 -- Root of the library: everything `./check --setup` pre-builds.
 import Xrfmv.Props.C03
+import Xrfmv.Props.C02
